@@ -339,8 +339,16 @@ fn guarded(f: &(impl Fn(usize, &mut Report) + Sync), i: usize, r: &mut Report) {
     if tracing() {
         eprintln!("TRACE item={}", i);
     }
+    LAST_PANIC.with(|p| p.borrow_mut().clear());
     if catch(|| f(i, &mut *r)).is_err() {
-        r.fail("C01:monitor-panicked-on-returned-value", "harness", format!("work item {}", i), "monitor code panicked while examining a returned value (see the preceding failure of this item, e.g. invalid UTF-8)".into(), "no panic".into());
+        let last = LAST_PANIC.with(|p| p.borrow().clone());
+        if last.contains("/konst/src/") || last.contains("/konst_kernel/src/") || last.contains("/konst_proc_macros/src/") {
+            // the panic was raised by konst itself, in a call the workload makes without `catch` because
+            // the operation is total for every input (getters, iterators, comparisons, parsers ...)
+            r.fail("unexpected-panic-inside-konst", "konst", format!("work item {}", i), format!("panicked: {}", last), "no panic: the operation is defined for every input".into());
+        } else {
+            r.fail("C01:monitor-panicked-on-returned-value", "harness", format!("work item {}: {}", i, last), "monitor code panicked while examining a returned value (see the preceding failure of this item, e.g. invalid UTF-8)".into(), "no panic".into());
+        }
     }
 }
 
@@ -348,6 +356,8 @@ fn guarded(f: &(impl Fn(usize, &mut Report) + Sync), i: usize, r: &mut Report) {
 
 thread_local! {
     static IN_CATCH: std::cell::Cell<u32> = const { std::cell::Cell::new(0) };
+    /// message @ location of the most recent panic on this thread (set by the hook)
+    static LAST_PANIC: std::cell::RefCell<String> = const { std::cell::RefCell::new(String::new()) };
 }
 
 static UB_CHECK_PANICS: std::sync::Mutex<Vec<String>> = std::sync::Mutex::new(Vec::new());
@@ -371,8 +381,9 @@ pub fn silence_panics() {
         } else {
             String::new()
         };
+        let loc = info.location().map(|l| format!("{}:{}", l.file(), l.line())).unwrap_or_default();
+        LAST_PANIC.with(|p| *p.borrow_mut() = format!("{} @ {}", msg.chars().take(200).collect::<String>(), loc));
         if msg.contains("unsafe precondition") {
-            let loc = info.location().map(|l| format!("{}:{}", l.file(), l.line())).unwrap_or_default();
             if let Ok(mut g) = UB_CHECK_PANICS.lock() {
                 if g.len() < 50 {
                     g.push(format!("{} @ {}", msg, loc));
